@@ -309,6 +309,143 @@ func (c *Ctx) evxRun() []*opsVerdict {
 			}
 		}()
 	}
+	// ---- evaluations of one instance inside one another ---------------------------------------------------
+	// "... any number of times and interleaved with evaluations under other variable sets": the tightest interleaving
+	// one goroutine can produce. The caller's function collection holds a function F (a DelegatedFunction around a
+	// closure of the caller) which, for an argument n > 0, evaluates THE SAME calculator instance with a variable
+	// collection of its own (x = n; k = 1 and t = 10 as everywhere) and the same functions, and returns that value; F(n) = 0 for n <= 0. The outer
+	// evaluation is under way while the inner ones begin and end. Every evaluation must return, and return what the
+	// evaluations give one after the other: the value of the expression with F(n) replaced by the value for x = n.
+	type nestCase struct {
+		expr string
+		val  func(x int64, f func(int64) int64) int64
+	}
+	nestCases := []nestCase{
+		{"F ( x - k ) + x", func(x int64, f func(int64) int64) int64 { return f(x-1) + x }},
+		{"x + F ( x - k )", func(x int64, f func(int64) int64) int64 { return x + f(x-1) }},
+		{"F ( x - k ) * ( k + k ) + F ( x - k - k )", func(x int64, f func(int64) int64) int64 { return f(x-1)*2 + f(x-2) }},
+		{"x * t - F ( x - k - k ) * F ( x - k )", func(x int64, f func(int64) int64) int64 { return x*10 - f(x-2)*f(x-1) }},
+	}
+	for _, su := range setups {
+		su := su
+		name := su.manager
+		if name == "" {
+			name = "default"
+		}
+		v := &opsVerdict{key: "calculator.ExpressionCalculator#real-operations#" + name + "#evaluations-inside-one-another", pos: c.Pos(c.MustFunc(pkgCalc, "ExpressionCalculator", "EvaluateUsingVariablesAndFunctions").Pos())}
+		all = append(all, v)
+		wg.Add(1)
+		go func() {
+			defer wg.Done()
+			defer func() {
+				if r := recover(); r != nil {
+					a, ok := r.(mAbort)
+					if !ok {
+						panic(r)
+					}
+					v.undec = a.why
+				}
+			}()
+			h := c.newVxHarness("TypeUnsafeVariantOperations")
+			if h.fault != "" {
+				v.undec = h.fault
+				return
+			}
+			m := h.m
+			calcT := resultType(c.MustFunc(pkgCalc, "", "NewExpressionCalculator"))
+			fcctor := c.MustFunc(pkgFunctions, "", "NewFunctionCollection")
+			newFn := c.MustFunc(pkgFunctions, "", "NewDelegatedFunction")
+			for _, nc := range nestCases {
+				k, why := h.newEvxCalc(su.manager)
+				if k == nil {
+					v.undec = why
+					return
+				}
+				if out := k.setTokens(nc.expr); out.kind != "ok" {
+					v.undec = fmt.Sprintf("SetOriginalTokens ‹%s›: %s", nc.expr, out.why)
+					continue
+				}
+				fcol, out := m.Call(fcctor)
+				if out.kind != "ok" {
+					v.undec = "NewFunctionCollection: " + out.why
+					return
+				}
+				funcs := mIface{t: resultType(fcctor), v: fcol}
+				var trace []string
+				evalWith := func(x int64) (mv, mOutcome) {
+					vars, _ := h.evxVariables([]string{"x", "k", "t"}, map[string]evxVal{"x": {"Integer", x}, "k": {"Integer", int64(1)}, "t": {"Integer", int64(10)}})
+					return callM(c, m, calcT, "EvaluateUsingVariablesAndFunctions", k.calc, vars, funcs)
+				}
+				m.symFunc = func(m *mach, f *mSym, args []mv) (mv, bool) {
+					if f.name != "evaluates-the-same-calculator" || len(args) < 1 {
+						return nil, false
+					}
+					ps, ok := args[0].(mSlice)
+					if !ok || len(ps.arr) != 1 || h.typeOf(ps.arr[0]) != "Integer" {
+						m.abort("F called with %s", mRender(args[0]))
+					}
+					var n int64
+					if _, err := fmt.Sscan(h.payloadOf(ps.arr[0]), &n); err != nil {
+						m.abort("F called with %s", mRender(args[0]))
+					}
+					if n <= 0 {
+						return mTuple{h.variant("Integer", int64(0)), mNil}, true
+					}
+					trace = append(trace, fmt.Sprintf("F(%d) begins an evaluation of the same calculator with x = %d", n, n))
+					r, out := evalWith(n)
+					if out.kind != "ok" {
+						// the inner evaluation did not return: neither does the outer one
+						m.abort("%s", out.why)
+					}
+					trace = append(trace, fmt.Sprintf("the evaluation with x = %d returns", n))
+					return r, true
+				}
+				item, out := m.Call(newFn, "F", &mSym{name: "evaluates-the-same-calculator", nonNil: true})
+				if out.kind == "ok" {
+					_, out = callM(c, m, resultType(fcctor), "Add", fcol, mIface{t: resultType(newFn), v: item})
+				}
+				if out.kind != "ok" {
+					v.undec = "NewDelegatedFunction / Add: " + out.why
+					m.symFunc = nil
+					return
+				}
+				var want func(x int64) int64
+				want = func(x int64) int64 {
+					return nc.val(x, func(n int64) int64 {
+						if n <= 0 {
+							return 0
+						}
+						return want(n)
+					})
+				}
+				for x := int64(0); x <= 4; x++ {
+					m.steps = 0
+					trace = trace[:0]
+					r, out := evalWith(x)
+					where := fmt.Sprintf("%s, expression ‹%s›, a function collection whose F(n) evaluates the same calculator with its own variable collection (x = n, k = 1, t = 10; F(n) = 0 for n <= 0), evaluated with x = %d, k = 1, t = 10", su.label, nc.expr, x)
+					if x == 2 {
+						noteSample("EVAL.realops/evaluations-inside-one-another", where)
+					}
+					if out.kind != "ok" && strings.HasPrefix(out.why, deadlockPrefix) {
+						if v.bad == "" {
+							v.bad = fmt.Sprintf("%s: the evaluation never returns (%s; %s). Evaluations of one parsed instance may be interleaved with evaluations under other variable sets: each returns its sequential result (here Integer %d)", where, strings.Join(trace, ", "), out.why, want(x))
+						}
+						continue
+					}
+					got, why := h.renderResult(r, out)
+					if why != "" {
+						v.undec = where + ": " + why
+						continue
+					}
+					v.runs++
+					if w := fmt.Sprintf("Integer %d", want(x)); got != w && v.bad == "" {
+						v.bad = fmt.Sprintf("%s answers %s; the evaluations one after the other give %s", where, got, w)
+					}
+				}
+				m.symFunc = nil
+			}
+		}()
+	}
 	// ---- the managers called directly ------------------------------------------------------------------
 	conc := map[string]interface{}{"Null": nil, "Integer": int64(6), "Long": int64(3), "Boolean": true, "Float": float64(1.5), "Double": float64(2.5),
 		"String": lit("7"), "DateTime": "t0", "TimeSpan": int64(1500), "Object": "o", "Array": "a"}
@@ -419,7 +556,7 @@ func (c *Ctx) evxRun() []*opsVerdict {
 
 func init() {
 	register(&Rule{ID: "EVAL.realops", Floor: 8,
-		Doc: "calculators with the real operations managers (default, type-unsafe, type-safe) evaluate mixed-type expressions whose operands need conversions twice, again after the host stored another value in a variable's Variant in place, and interleaved with another variable set: every answer equals that of a calculator which has not evaluated anything, and a fingerprint of everything reachable from the calculator instance (its operations object included) is the same after every evaluation; Convert and every operator of both managers called directly leave the manager object unchanged and answer by the present value of their operands",
+		Doc: "calculators with the real operations managers (default, type-unsafe, type-safe) evaluate mixed-type expressions whose operands need conversions twice, again after the host stored another value in a variable's Variant in place, and interleaved with another variable set - also inside one another: a function of the caller that evaluates the same calculator instance with its own variable collection (recursive definitions over x = 0..4), where every evaluation must return and give the sequential result -: every answer equals that of a calculator which has not evaluated anything, and a fingerprint of everything reachable from the calculator instance (its operations object included) is the same after every evaluation; Convert and every operator of both managers called directly leave the manager object unchanged and answer by the present value of their operands",
 		Run: func(c *Ctx) []*Obligation {
 			o := newObl("EVAL.realops")
 			for _, v := range c.evxRun() {
